@@ -12,13 +12,14 @@ Flyers and per-call subscriptions are not exercised (the driver has no kickoff s
 """
 from harness.props.engine_common import *  # noqa: F401,F403  (impl_batch/nontrivial/describe/... shared by the engine family)
 from harness.props import engine_common as ec
-from harness.drivers import engine_cases_c06, engine_encode
+from harness.drivers import engine_cases_c06, engine_encode, cleanup_cases, cleanup_terms
 
 ID = "C06"
 PROP_FILE = "Props/C06.v"
 THEOREMS = ["C06_clean_when_idle_partial", "C06_clean_when_done", "C06_returns_idle_clean", "C06_idle_transition_clean",
             "C06_ledger_tracked", "C06_full_refuted"]
-COQ_IMPORTS = ec.COQ_IMPORTS + "\nFrom BV Require Import Proofs.RE_Clean."
+COQ_IMPORTS = ec.COQ_IMPORTS + ("\nFrom BV Require Import Proofs.RE_Clean.\nFrom BV Require Engine.CleanupLedger.\n"
+                               "Module CL := BV.Engine.CleanupLedger.")
 RULE = ec.RULE + ("; plus C06 cases (harness/drivers/engine_cases_c06.py): 10 stage/set plans (double staging, re-staging, "
                   "unstage in finally, clear_checkpoint, raising plan, handled device error) x requests at `_run` step indices x "
                   "{abort, stop, halt, pause+resume/stop/abort/halt, suspend}, device faults in stage/unstage/set/stop, "
@@ -26,7 +27,53 @@ RULE = ec.RULE + ("; plus C06 cases (harness/drivers/engine_cases_c06.py): 10 st
 
 
 def cases(rng, tier):
-    return ec.gen_cases(rng, tier) + engine_cases_c06.gen(rng, tier)
+    return ec.gen_cases(rng, tier) + engine_cases_c06.gen(rng, tier) + cleanup_cases.gen(rng, tier)
+
+
+def is_cleanup(case):
+    return case.get("kind") == "cleanup"
+
+
+def _cleanup_chunk(chunk):
+    from harness.drivers import cleanup_driver
+    out = []
+    for c in chunk:
+        try:
+            out.append(cleanup_driver.run_case(c))
+        except Exception as e:  # noqa: BLE001
+            out.append({"log": [], "outs": [], "errors": ["driver crashed: %s: %s" % (type(e).__name__, e)]})
+    return out
+
+
+def impl_batch(cases):
+    """engine-model cases go through the shared (cached) engine driver, cleanup-ledger sessions through
+    harness/drivers/cleanup_driver.py (a fresh real RunEngine per session)"""
+    import json
+    obs = [None] * len(cases)
+    eng = [i for i, c in enumerate(cases) if not is_cleanup(c)]
+    for i, o in zip(eng, ec.impl_batch([cases[i] for i in eng]) if eng else []):
+        obs[i] = o
+    cl = [i for i, c in enumerate(cases) if is_cleanup(c)]
+    todo = [cases[i] for i in cl]
+    if len(todo) > 600:
+        import multiprocessing as mp
+        from harness import core
+        step = 100
+        with mp.get_context("spawn").Pool(min(core.NCPU, 8)) as pool:
+            res = [o for ch in pool.map(_cleanup_chunk, [todo[k:k + step] for k in range(0, len(todo), step)]) for o in ch]
+    else:
+        res = _cleanup_chunk(todo)
+    for i, o in zip(cl, json.loads(json.dumps(res))):
+        obs[i] = o
+    return obs
+
+
+def nontrivial(case, obs):
+    return cleanup_terms.nontrivial(case, obs) if is_cleanup(case) else ec.nontrivial(case, obs)
+
+
+def describe(case):
+    return cleanup_terms.describe(case) if is_cleanup(case) else ec.describe(case)
 
 
 # ----------------------------------------------------------------------------- the ledger
@@ -121,6 +168,8 @@ def problems(obs):
 
 
 def oracle(case, obs):
+    if is_cleanup(case):
+        return cleanup_terms.oracle(case, obs)
     if obs.get("errors"):
         return "driver: " + str(obs["errors"][0])[:200]
     ps = problems(obs)
@@ -131,7 +180,10 @@ def oracle(case, obs):
 
 
 def finding(case, obs):
-    """b: the only deviation is the counting clause and some device was staged while already staged"""
+    """b: the only deviation is the counting clause and some device was staged while already staged;
+    a (cleanup-ledger sessions): the only deviation is a flyer never collected that was uncollected in a run the plan closed"""
+    if is_cleanup(case):
+        return cleanup_terms.finding(case, obs)
     if obs.get("errors"):
         return None
     ps = problems(obs)
@@ -160,7 +212,10 @@ def coq_ledger(obs):
 def coq_term(case, obs):
     """the shared correspondence term (the model reproduces every observation of the real run, device
     calls included) and, on the same ledger, the Coq predicates of Proofs/RE_Clean.v against their
-    Python mirrors used by oracle()/finding(): the finding class and cleanliness of the final ledger"""
+    Python mirrors used by oracle()/finding(): the finding class and cleanliness of the final ledger;
+    cleanup-ledger sessions: Engine/CleanupLedger.v run on the processed ops and the fault positions (cleanup_terms)"""
+    if is_cleanup(case):
+        return cleanup_terms.coq_term(case, obs)
     t = ec.coq_term(case, obs)
     if t is None:
         return None
